@@ -8,6 +8,8 @@ CONSTANTS
   Interval = 11
   Deltas = {1}
   MaxChanges = 100000
+  MaxCancels = 100000
+  SkipCancelled = TRUE
   Timely = FALSE
   StallBound = 1024
   BypassBound = 3
